@@ -19,6 +19,8 @@ C06.g the validator's lower bound for chunk_min_size is at least the read-ahead 
 C06.h chunkers are built from the configuration passed in: Rabin tables from config.poly() at each construction, no
   process-wide cache (OnceLock/Lazy/thread_local) in between.
 C06.e the fixed-size chunker reads at most `size` bytes per chunk and stops at a short read.
+C06.i end of input is never inferred from a short single read(): `finished` is set only when a read returned 0 bytes or a
+  read_to_end over take(n) came back short - otherwise boundaries depend on how the source fragments its data.
 """
 import re
 from rules.common import *
@@ -201,6 +203,7 @@ def run(ctx, rep):
             if e[0] == "bin" and e[1] in ("Lt", "Gt", "Le", "Ge") and "size" in repr(e):
                 okf = True
     rep.check("C06.e", "short-read-ends", okf, where=FX.loc(), what="a read shorter than `size` marks the iterator finished (last chunk may be shorter)")
+    fragmentation_rule(ctx, rep, "C06.i")
 
 
 def carry_rule(ctx, rep, R):
@@ -229,3 +232,56 @@ def carry_rule(ctx, rep, R):
                     if o == flow.expr_of(NX, tt["args"][1], tb):
                         oks = True
         rep.check(R, "short-read-vs-limit", oks, where=where(NX, tb), what="end of input is detected by comparing the bytes read with the same limit that was requested")
+
+
+def fragmentation_rule(ctx, rep, R):
+    """`R`: the amount returned by ONE `Read::read` call never decides that the input has ended unless it is 0. A pipe or
+    socket may deliver fewer bytes than asked for at any time; only `read_to_end` (over `take(n)`), `read_exact` or a
+    loop that retries until 0 see the real end. Otherwise chunk boundaries (and how much is stored) depend on how fast the
+    source delivers bytes."""
+    prog = ctx.prog
+    rep.rule(R, "end of input is never inferred from a short single read() (only from 0 bytes / read_to_end)")
+
+    def read_counts(e, out):
+        if isinstance(e, tuple):
+            if e and e[0] == "proj" and isinstance(e[1], tuple) and e[1] and e[1][0] == "call" and e[1][1] == "std::io::Read::read" and len(e) > 3 and list(e[3])[:1] == ["Ok"]:
+                out.append(e)
+                return
+            for x in e:
+                read_counts(x, out)
+        elif isinstance(e, list):
+            for x in e:
+                read_counts(x, out)
+    n = 0
+    for b in prog.by_crate["rustic_core"]:
+        if "::chunker::" not in b.path:
+            continue
+        fin = [bi for bi, blk in enumerate(b.blocks) for s in blk["s"] if s[0] == "=" and place_has_field(s[1], "finished") and s[2][0] == "use" and s[2][1][0] == "k" and s[2][1][1].get("v") is True]
+        for k, bi in enumerate(fin, 1):
+            n += 1
+            bad = []
+            for (sw, succ) in C.transitive_control_deps(b, bi):
+                t = b.term(sw)
+                e = flow.expr_of(b, t["discr"], sw)
+                while e[0] == "un" and e[1] == "Not":
+                    e = e[2]
+                if e[0] == "discr":
+                    continue
+                rc = []
+                read_counts(e, rc)
+                if not rc:
+                    continue
+                if e in rc:
+                    # `match n { 0 => .., _ => .. }`: fine whichever way; the count is only tested against constants; the store must
+                    # sit on the 0 edge
+                    zero = [x for v, x in t["targets"] if v == "0"]
+                    if zero and bi not in b.reachable_from(sw, cut_edges=[(sw, zero[0])]):
+                        continue
+                    bad.append((sw, "non-zero count"))
+                    continue
+                if e[0] == "bin" and e[1] in ("Eq", "Ne") and ((e[2] in rc and e[3] == ("const", 0)) or (e[3] in rc and e[2] == ("const", 0))):
+                    continue
+                bad.append((sw, f"{e[1] if e[0] == 'bin' else e[0]} on the count of a single read()"))
+            rep.check(R, f"{fn_key(b)}/finished/{k}", not bad, where=where(b, bi), what=f"{fn_key(b)}: `finished` is set only on 0 bytes read / a short read_to_end" if not bad else
+                      f"{fn_key(b)}: the iterator is marked finished because ONE read() returned a short count ({bad[0][1]} at {where(b, bad[0][0])}): a slow pipe ends the stream early and moves chunk boundaries")
+    rep.floor(R, "`finished = true` sites in the chunkers", n, 3)
